@@ -765,10 +765,58 @@ def forward_refs(d):
     return d
 
 
+def flags_as_set(d, norm):
+    """a dense set of indices kept as one flag per index (`Vec<bool>` / `[bool; N]`) reads like the hash set it stands
+    for:  `flags[i]` (a read of the flag)  ->  HashSet::contains(&flags, i);   `flags[i] = true`  ->  HashSet::insert(
+    &mut flags, i);  `flags[i] = false`  ->  HashSet::remove.  Only the callee of the Index / IndexMut call is renamed -
+    operands, destinations and control flow stay as they are - so every rule that speaks about membership tests and
+    insertions applies to both representations."""
+    n = 0
+    for bi, blk in enumerate(d['blocks']):
+        t = blk['t']
+        if t['k'] != 'call' or blk.get('cleanup') or t['f'].get('k') != 'const':
+            continue
+        c = t['f'].get('c', {})
+        fn = norm(c.get('fn', '')) if c.get('fn') else ''
+        if fn not in ('std::ops::Index::index', 'std::ops::IndexMut::index_mut') or len(t['args']) != 2:
+            continue
+        a0 = t['args'][0]
+        if a0.get('k') not in ('copy', 'move') or a0['pl']['p']:
+            continue
+        rty = d['locals'][a0['pl']['l']].replace(' ', '')
+        if not (('Vec<bool>' in rty or '[bool;' in rty or '[bool]' in rty) and t['dest'] and not t['dest']['p']):
+            continue
+        dty = d['locals'][t['dest']['l']].replace(' ', '')
+        if fn.endswith('index') and dty == '&bool':
+            new = 'contains'
+        elif fn.endswith('index_mut') and dty == '&mutbool' and t.get('target') is not None:
+            val = None
+            dl = t['dest']['l']
+            for st in d['blocks'][t['target']]['st']:
+                if st['k'] == 'assign' and st['lhs']['l'] == dl and st['lhs']['p'] == ['*'] and st['rv']['k'] == 'use' and \
+                        st['rv']['op'].get('k') == 'const':
+                    val = st['rv']['op']['c'].get('v')
+            if val is True:
+                new = 'insert'
+            elif val is False:
+                new = 'remove'
+            else:
+                continue
+        else:
+            continue
+        t['f'] = {'k': 'const', 'c': {'ty': c.get('ty', ''), 'fn': 'std::collections::HashSet::<T, S, A>::' + new,
+                                     'ga': [], 'impl_self': 'std::collections::HashSet<T, S, A>', 'flagvec': True}}
+        n += 1
+    if n:
+        d['flags_as_set'] = n
+    return d
+
+
 def prepare_body(facts, d, norm, depth=0):
     """all normalisations of one body dict: std combinators desugared, new private helpers inlined"""
     if d['kind'] not in ('Fn', 'AssocFn', 'Closure'):
         return d
+    d = flags_as_set(d, norm)
     d = desugar_combinators(facts, d, norm, depth)
     n0 = len(d.get('inlined', []))
     d = inline_new_helpers(facts, d, norm, depth)
